@@ -19,12 +19,12 @@ Property predicates on the implementation's own transcript (kind 'pred'):
   count       (C05) every write returns the count asked
   position    (C05, C06) every read returns min (asked, frames - position)
   eof         (C05) a read at the end returns 0, zero-fills the request and sets no error
-  stream      (C06) every read delivers the slice of the one-call reference read at its position — also after refused seeks
+  stream      (C05, C06) every read delivers the slice of the one-call reference read at its position — also after refused seeks
   seek        (C06) the handle reports seekable = 0: every sf_seek returns -1 with an error set
   shortblock  (C06) a data region that ends inside a block (and at the end of the file) decodes as if the missing 16-bit
               words were there and zero: the frames of the last block are a function of the words that are there, not of
               what an earlier block left in the codec's buffer (defect repaired by the fix of KF-NMS-SHORT-BLOCK)
-  partition   (C07) same caller values, many calls vs. one call per run of equal type: byte-identical files
+  partition   (C07) same caller values, many calls vs. one call per run of equal type vs. calls of at most 1000 items: byte-identical files
 """
 import collections, concurrent.futures, struct
 
@@ -138,6 +138,7 @@ class Job:
         self.raw = (word & 0xFFF0000) == RAW
         self.fmtname = fmt_name(word, rate)
         self.twin = None             # partition: name of the merged-calls job; bytes: name of the zero-completed job
+        self.twin2 = None            # partition: name of the job with the same values in calls of at most 1000 items
         self.xs = None               # modelmade: the shorts the model encodes
         self.region = None           # stored kinds: hex of the data region
         self.store = None            # stored kinds: hex of the file
@@ -330,10 +331,20 @@ def make_jobs(ctx, njobs, prop):
             j.xs = xs
             jobs.append(j)
             continue
-        tys = TYS if kind == "partition" or rng.random() < 0.6 else [rng.choice(TYS)]
+        tys = TYS if rng.random() < 0.6 else [rng.choice(TYS)]
         exact = rng.random() < 0.5
         calls, i = [], 0
-        for c in split_calls(rng, n):
+        big = kind == "partition" and rng.random() < 0.2
+        if big:
+            # one call (or two) longer than the 4096-short staging buffer of the int / float / double entry points
+            n = rng.choice([4097, 4257, 8193, 4096 + rng.randrange(2, 3000)])
+            xs = content(rng, cont, n)
+            F = ((n + SPB - 1) // SPB) * SPB
+            tys = [rng.choice(["s32", "f32", "f64"])]
+            name = "%s-n%d-%s-%s-%d" % (fmt_name(word, rate), n, kind, cont, k - 1)
+            spent += n
+        tail = 4097 - rng.randrange(0, 2)
+        for c in (split_calls(rng, n) if not big else [n] if rng.random() < 0.6 else [n - tail, tail]):
             ty = rng.choice(tys)
             vals = [to_caller(rng, ty, x, flags, exact) for x in xs[i:i + c]]
             calls.append((ty, rng.choice("if"), c, vals))
@@ -355,6 +366,16 @@ def make_jobs(ctx, njobs, prop):
             j.twin = t.name
             jobs.append(t)
             spent += n
+            if max(c[2] for c in calls) > 1000:
+                # second twin: no call longer than 1000 items, so no call crosses a boundary of the 4096-short staging buffer
+                small = []
+                for (ty, unit, cnt, vals) in calls:
+                    for o in range(0, cnt, 1000):
+                        small.append((ty, unit, min(1000, cnt - o), vals[o:o + 1000]))
+                t2 = Job(name + "-small", word, rate, sr, flags, "twin", cont, small, a, None, n)
+                j.twin2 = t2.name
+                jobs.append(t2)
+                spent += n
     return jobs
 
 
@@ -559,16 +580,18 @@ def campaign(ctx, njobs, prop):
             continue
         t = byname[j.twin]
         if j.kind == "partition":
-            a, b = infos[j.name].get("filehex"), infos[t.name].get("filehex")
-            if a is None or b is None:
-                continue
-            stats["twins_compared"] += 1
-            if a != b:
-                d = next((i for i in range(0, min(len(a), len(b)), 2) if a[i:i + 2] != b[i:i + 2]), min(len(a), len(b)))
-                pr = Problem(j, "pred", "partition", "the same caller values written in %d calls and in %d calls give files that differ from byte %d (lengths %d / %d)"
-                             % (len(j.calls), len(t.calls), d // 2, len(a) // 2, len(b) // 2), None)
-                pr.twin_script = hs[t.name]
-                probs.append(pr)
+            for t in [byname[x] for x in (j.twin, j.twin2) if x]:
+                a, b = infos[j.name].get("filehex"), infos[t.name].get("filehex")
+                if a is None or b is None:
+                    continue
+                stats["twins_compared"] += 1
+                if a != b:
+                    d = next((i for i in range(0, min(len(a), len(b)), 2) if a[i:i + 2] != b[i:i + 2]), min(len(a), len(b)))
+                    pr = Problem(j, "pred", "partition", "the same caller values written in %d calls and in %d calls give files that differ from byte %d (lengths %d / %d)"
+                                 % (len(j.calls), len(t.calls), d // 2, len(a) // 2, len(b) // 2), None)
+                    pr.twin_script = hs[t.name]
+                    probs.append(pr)
+                    break
         else:
             a, b = infos[j.name].get("first"), infos[t.name].get("first")
             if a is None or b is None:
@@ -583,7 +606,7 @@ def campaign(ctx, njobs, prop):
 
 
 CATS = {
-    "C05": {"count", "position", "eof", "crash", "open"},
+    "C05": {"count", "position", "eof", "stream", "crash", "open"},
     "C06": {"stream", "position", "seek", "shortblock", "crash", "open"},
     "C07": {"partition", "crash", "open"},
 }
@@ -610,7 +633,7 @@ def run(ctx, prop, njobs):
         sl = j.lines
         script = "\n".join(sl[:p.line + 1] if p.line is not None else sl) + "\n"
         if p.twin_script:
-            script = hs[j.name] + "# --- the same caller values, one call per run of equal type:\n" + p.twin_script
+            script = hs[j.name] + "# --- the same caller values in other calls:\n" + p.twin_script
         head = ""
         if p.expect and p.line is not None:
             head = "expect-last %s\n" % p.expect
